@@ -40,11 +40,22 @@ def run(prop, select, clause_ok, nontrivial, rule, assumptions, sample_of=None, 
         for cl in c["clauses"]:
             if clause_ok(cl, c):
                 out.fail(cl, c["name"], replay_obj(c), origin=c["origin"], facts=facts)
+    design = None
+    if prop in ("C01", "C02") and replay_case is None:
+        # design level: the specified GLR machine over a TLA+-synthesised LALR table returns exactly the chart reference (spec/GLR.tla)
+        from . import design_glr
+        from .common import MachineryFailure
+
+        design = design_glr.get(tier())
+        if design["violated"]:
+            raise MachineryFailure("design-level theorem %s of spec/GLR.tla is violated: the reference needs repair, no verdict on the code" % design["violated"])
+        out.cov["states"] += design["states"]
+        out.cov["transitions"] += design["generated"]
     if extra and replay_case is None:
         extra(out)
     out.assumptions = assumptions
     return out.finish(extra_cov={"rule": rule, "trace_events": actions, "build_errors": len(st["build_errors"]),
-                                 "exhaustive": False})
+                                 "exhaustive": False, "design_level_GLR_equals_chart": design})
 
 
 LATTICE_ASSUMPTION = "the token lattice (match lengths per terminal and position, ws skip table) is computed by the harness from the real recognizers and is trusted"
@@ -77,6 +88,24 @@ def c02(replay_case=None):
     )
 
 
+def _forest_api(out):
+    """C03 histories: Forest API call sequences enumerated/simulated by TLC, replayed on real forests, validated by ForestAPITrace.tla"""
+    from . import stage_fapi
+
+    r = stage_fapi.get(tier(), seed())
+    out.cov["states"] += r["stats"]["states"]
+    out.cov["transitions"] += r["stats"]["generated"]
+    out.cov["forest_api_histories"] = r["stats"]["gen"]
+    for c in r["traces"]:
+        out.count()
+        out.cov["traces_validated_against_impl"] += 1
+        if c["len0"] >= 2:
+            out.nontrivial("api:" + c["name"])
+        for step, clause in c["bad"]:
+            out.fail(clause, c["name"] + " @step %d" % step, {"kind": "forest-api-history", "name": c["name"], "step": step, "replies": c["replies"]},
+                     origin=c["origin"], facts=set(c["facts"]))
+
+
 def c03(replay_case=None):
     return run(
         "C03",
@@ -85,8 +114,10 @@ def c03(replay_case=None):
         nontrivial=lambda c: c["flags"]["trees"] >= 2 or c["flags"]["trees"] == -1,
         rule="cases = forests returned by real GLR parses; non-trivial = reference has >= 2 trees or infinitely many; "
              "every tree of forests up to 40 trees enumerated lazily, non-lazily, repeatedly, by iteration; indices len, len+1, 2len+3, 10^12 probed",
-        assumptions=[LATTICE_ASSUMPTION, "tree sets are materialised in TLA+ up to 60 trees; beyond that counts (saturating + residues mod four 15-bit primes) only"],
+        assumptions=[LATTICE_ASSUMPTION, "tree sets are materialised in TLA+ up to 60 trees; beyond that counts (saturating + residues mod four 15-bit primes) only",
+                     "API histories: which tree an index denotes is not documented; the machine demands an injection into the represented trees that is stable across lazy, non-lazy, iterated and repeated access"],
         replay_case=replay_case,
+        extra=_forest_api,
     )
 
 
